@@ -204,14 +204,17 @@ def run_check(prop, tier, seed, replay_path=None, jobs=None):
         r['_shard_index'] = i
     merged = _merge(results)          # shard order => deterministic
 
-    # vacuity guards / extra coverage from the property module
+    # vacuity guards / extra coverage from the property module (a guard failing because violations removed an expected
+    # outcome must not hide the violations: it only counts when nothing was violated)
     extra_cov = {}
     try:
         if hasattr(mod, 'finish'):
             extra_cov = mod.finish(merged, tier, seed) or {}
     except HarnessError as e:
-        sys.stderr.write('HARNESS ERROR (vacuity guard): %s\n' % e)
-        return 2
+        if not merged['violations']:
+            sys.stderr.write('HARNESS ERROR (vacuity guard): %s\n' % e)
+            return 2
+        extra_cov = {'vacuity_guard_failed_because_of_violations': str(e)}
 
     # violations: determinism gate (replay twice in this process), known-finding matching, replay files
     os.makedirs(os.path.join(VERIF, 'replays', 'run'), exist_ok=True)
